@@ -118,6 +118,10 @@ V("C10", "tag_first_line_only", "fire", [(RES, "                acl_text += fr\"
 V("C10", "fold_other_results_config", "fire", [("annet/generators/result.py", "            tree = merge_dicts(tree, config)\n", "            tree = merge_dicts(tree, config) if config else odict()\n")], rule="C10.R3")
 V("C10", "twin_combine_join", "silent", [("annet/generators/result.py", "            if line and not line.isspace():\n                acl_text += line.rstrip()\n                acl_text += fr\"  %generator_names={gr.name}\"\n                acl_text += \"\\n\"\n", "            if not line or line.isspace():\n                continue\n            acl_text += line.rstrip() + fr\"  %generator_names={gr.name}\" + \"\\n\"\n")])
 V("C10", "combine_skip_comment_lines", "fire", [("annet/generators/result.py", "            if line and not line.isspace():\n                acl_text += line.rstrip()", "            if line.startswith(\"#\"):\n                continue\n            if line and not line.isspace():\n                acl_text += line.rstrip()")], rule="C10.R4")
+V("C10", "multiblock_if_condition_nested_again", "fire", [("annet/generators/base.py", "            condition = (None not in blocks)\n        if condition:\n            if blocks:\n                blk = blocks[0]\n                tokens = blk if isinstance(blk, (list, tuple)) else [blk]\n                with self.block(*tokens):\n                    with self.multiblock(*blocks[1:]):\n                        yield\n                        return\n", "            condition = (None not in blocks)\n            if condition:\n                if blocks:\n                    blk = blocks[0]\n                    tokens = blk if isinstance(blk, (list, tuple)) else [blk]\n                    with self.block(*tokens):\n                        with self.multiblock(*blocks[1:]):\n                            yield\n                            return\n")], rule="C10.R6")
+V("C10", "block_if_truthiness", "fire", [("annet/generators/base.py", "condition = (None not in tokens and \"\" not in tokens)", "condition = all(tokens)")], rule="C10.R6")
+V("C10", "twin_block_if_demorgan", "silent", [("annet/generators/base.py", "condition = (None not in tokens and \"\" not in tokens)", "condition = not (None in tokens or \"\" in tokens)")])
+V("C10", "block_pop_before_yield", "fire", [("annet/generators/base.py", "        yield\n        self._indents.pop(-1)\n        self._block_path.pop(-1)", "        self._block_path.pop(-1)\n        yield\n        self._indents.pop(-1)")], rule="C10.R6")
 V("C10", "add_partial_if_config", "fire", [(GI, "        ret.add_partial(result)", "        if result.config:\n            ret.add_partial(result)")], rule="C10.R3")
 
 # ---------------------------------------------------------------- C11
@@ -127,6 +131,10 @@ V("C11", "drop_unchanged_test", "fire", [("annet/rulebook/huawei/vlandb.py", "  
 V("C11", "twin_minus_operator", "silent", [("annet/rulebook/huawei/vlandb.py", "    removed = old.difference(new)\n    added = new.difference(old)", "    removed = old - new\n    added = new - old")])
 
 # ---------------------------------------------------------------- C12
+V("C11", "twin_expand_memoised_only", "silent", [("annet/annlib/lib.py", "def cisco_expand_vlandb(row):", "@lru_cache(None)\ndef cisco_expand_vlandb(row):")])
+V("C11", "twin_parse_alias_only", "silent", [("annet/rulebook/cisco/vlandb.py", "        vlandb.update(part)\n    return (prefix, vlandb, blocks)", "        if not vlandb:\n            vlandb = part\n        else:\n            vlandb.update(part)\n    return (prefix, vlandb, blocks)")])
+V("C11", "memoised_set_mutated", "fire", [("annet/annlib/lib.py", "def cisco_expand_vlandb(row):", "@lru_cache(None)\ndef cisco_expand_vlandb(row):"), ("annet/rulebook/cisco/vlandb.py", "        vlandb.update(part)\n    return (prefix, vlandb, blocks)", "        if not vlandb:\n            vlandb = part\n        else:\n            vlandb.update(part)\n    return (prefix, vlandb, blocks)")], rule="C11.R5")
+V("C11", "removed_widened", "fire", [("annet/rulebook/huawei/vlandb.py", "    if removed:\n        collapsed = collapse_vlandb(removed)", "    if removed:\n        if multi_all:\n            removed = removed | set(range(min(removed), max(removed)))\n        collapsed = collapse_vlandb(removed)")], rule="C11.R1")
 V("C12", "retire_before_put", "fire", [(PAR, "        results = list(pool._run_callbacks(task_result, in_thread=True))  # pylint: disable=protected-access\n        done_queue.put((worker_name, task, results, ret_exc))\n\n        tasks_done += 1\n        if pool.max_tasks and tasks_done >= pool.max_tasks:\n            _logger.debug(\"Maximum tasks limit reached. Now I can retire\")\n            tracing_connector.get().force_flush()\n            sys.exit(9)",
        "        tasks_done += 1\n        if pool.max_tasks and tasks_done >= pool.max_tasks:\n            _logger.debug(\"Maximum tasks limit reached. Now I can retire\")\n            tracing_connector.get().force_flush()\n            sys.exit(9)\n        results = list(pool._run_callbacks(task_result, in_thread=True))  # pylint: disable=protected-access\n        done_queue.put((worker_name, task, results, ret_exc))")], rule="C12.R2")
 V("C12", "stop_on_restart", "fire", [(PAR, "                    pool[name] = mp.Process(name=name, target=pool_worker, args=worker_args)", "                    task_queue.put(PoolWorkerTask(type=PoolWorkerTaskType.STOP))\n                    pool[name] = mp.Process(name=name, target=pool_worker, args=worker_args)")], rule="C12.R1")
